@@ -240,9 +240,7 @@ impl Mp4Track {
             let mut sample_count = 0u32;
             for traf in self.trafs.iter() {
                 if let Some(ref trun) = traf.trun {
-                    sample_count = sample_count
-                        .checked_add(trun.sample_count)
-                        .expect("attempt to sum trun sample_count with overflow");
+                    sample_count = sample_count.saturating_add(trun.sample_count);
                 }
             }
             sample_count
@@ -388,9 +386,7 @@ impl Mp4Track {
                 if sample_count > (global_idx - offset) {
                     return Some((traf_idx, (global_idx - offset) as _));
                 }
-                offset = offset
-                    .checked_add(sample_count)
-                    .expect("attempt to sum trun sample_count with overflow");
+                offset = offset.checked_add(sample_count)?;
             }
         }
         None
@@ -536,20 +532,38 @@ impl Mp4Track {
                 if let Some(trun) = &traf.trun {
                     if TrunBox::FLAG_SAMPLE_DURATION & trun.flags != 0 {
                         let mut start_offset = 0u64;
-                        for duration in &trun.sample_durations[..sample_idx] {
+                        for duration in trun.sample_durations.iter().take(sample_idx) {
                             start_offset = start_offset.checked_add(*duration as u64).ok_or(
                                 Error::InvalidData("attempt to sum sample durations with overflow"),
                             )?;
                         }
-                        let duration = trun.sample_durations[sample_idx];
-                        return Ok((base_start_time + start_offset, duration));
+                        let duration = *trun.sample_durations.get(sample_idx).ok_or(
+                            Error::EntryInTrunNotFound(
+                                self.track_id(),
+                                BoxType::TrunBox,
+                                sample_id,
+                            ),
+                        )?;
+                        let start_time =
+                            base_start_time
+                                .checked_add(start_offset)
+                                .ok_or(Error::InvalidData(
+                                    "attempt to calculate sample time with overflow",
+                                ))?;
+                        return Ok((start_time, duration));
                     }
                 }
             }
             // the base decode time of the fragment already accounts for the
             // samples of earlier fragments
             let start_offset = index_in_run * default_sample_duration as u64;
-            Ok((base_start_time + start_offset, default_sample_duration))
+            let start_time =
+                base_start_time
+                    .checked_add(start_offset)
+                    .ok_or(Error::InvalidData(
+                        "attempt to calculate sample time with overflow",
+                    ))?;
+            Ok((start_time, default_sample_duration))
         } else {
             let stts = &self.trak.mdia.minf.stbl.stts;
 
@@ -612,7 +626,8 @@ impl Mp4Track {
     fn is_sync_sample(&self, sample_id: u32) -> bool {
         if !self.trafs.is_empty() {
             let sample_sizes_count = self.sample_count() / self.trafs.len() as u32;
-            return sample_id == 1 || sample_id % sample_sizes_count == 0;
+            return sample_id == 1
+                || (sample_sizes_count != 0 && sample_id % sample_sizes_count == 0);
         }
 
         if let Some(ref stss) = self.trak.mdia.minf.stbl.stss {
